@@ -70,3 +70,16 @@ package xpair
 //@   ghost was = s.closed at call:Lock#1
 //@   ensures was ==> result == protocol.ErrClosed
 //@   ensures !was ==> isnil(result) && s.closed && closed(s.closeQ)
+//@
+//@ func (*socket).AddPipe
+//@   ghost op = s.peer at call:Lock#1
+//@   ghost cl = s.closed at call:Lock#1
+//@   ensures !cl && op != nil ==> result == protocol.ErrProtoState && s.peer == op && !spawned("receiver") && !spawned("sender")
+//@   ensures !cl && op == nil ==> isnil(result) && s.peer != nil && s.peer.p == pp && spawned("receiver") && spawned("sender")
+//@   ensures cl ==> result == protocol.ErrClosed && s.peer == op && !spawned("receiver")
+//@
+//@ func (*socket).RemovePipe
+//@   ghost op = s.peer at call:Lock#1
+//@   before call:Unlock#1 assert (op != nil && op.p == pp) ==> s.peer == nil
+//@   before call:Unlock#1 assert !(op != nil && op.p == pp) ==> s.peer == op
+//@   before call:close#1 assert op != nil && op.p == pp
